@@ -10,6 +10,7 @@ import NmVerif.NN.BatchNormLemmas
 import NmVerif.NN.AxisLemmas
 import NmVerif.NN.ChanLemmas
 import NmVerif.NN.GroupNormLemmas
+import NmVerif.NN.CosineLemmas
 /-
   C17 — neural-network routines equal their reference (PyTorch) definitions.
 
@@ -654,6 +655,73 @@ theorem group_norm_eq_def {α : Type} (add sub mul div : α → α → α) (sqab
 example : Pos ([1, 2 * 2] ++ [2]) ∧ 3 < 2 * 2 ∧ InShape [1] [2] ∧
     ((List.range 2).flatMap fun j => (allIdx [2]).map fun r => [0, 3 / 2 * 2 + j] ++ r) = [[0, 2, 0], [0, 2, 1], [0, 3, 0], [0, 3, 1]] := by
   decide
+
+/-! ## cosine_similarity -/
+
+open NmVerif.Reduce in
+/-- **cosine_similarity over any axis** (negative included) of operands that broadcast to `r`: the composition
+    (`broadcast_arrays`, two keepdims `vector_norm`s clamped by `maximum(·, eps)`, `multiply`, `divide`, `sum` over the
+    axis) exists, has the shape `r` without the axis, and the element at `j` is
+    `Σ_{i ∈ L} (a[i]·b[i]) / (max(‖a‖_L, eps) · max(‖b‖_L, eps))`, where `L` is `j` with the coordinate `0 .. n−1`
+    inserted at the axis (exactly the line of `j`, in order) and `‖a‖_L = post(Σ_{i ∈ L} pre(a[i]))` is taken over that
+    same line (`pre x = |x|²`, `post = sqrt`, abstract here); operands read at their NumPy broadcast positions. -/
+theorem cosine_similarity_eq_def {α : Type} (add mul div mx : α → α → α) (pre post : α → α) (eps : α) (x y : Arr α)
+    (r : Shape) (axis : Int) (n : Nat) (hx : Pos x.shape) (hy : Pos y.shape)
+    (hr : broadcastShape2 x.shape y.shape = some r) (hv : ValidAxis r.length axis)
+    (hn : r[normAxis r.length axis]? = some n) :
+    ∃ v, cosineSimilarity add mul div mx pre post eps x y axis = some v ∧
+      v.shape = specShape r [normAxis r.length axis] false ∧
+      ∀ j, InShape j (specShape r [normAxis r.length axis] false) →
+        v.get j =
+          (foldFirst add none (((List.range n).map (insAt j (normAxis r.length axis) ·)).map fun i =>
+              pre (x.get (specBroadcastIdx x.shape i)))).bind fun SA =>
+          (foldFirst add none (((List.range n).map (insAt j (normAxis r.length axis) ·)).map fun i =>
+              pre (y.get (specBroadcastIdx y.shape i)))).bind fun SB =>
+          foldFirst add none (((List.range n).map (insAt j (normAxis r.length axis) ·)).map fun i =>
+            div (mul (x.get (specBroadcastIdx x.shape i)) (y.get (specBroadcastIdx y.shape i)))
+              (mul (mx (post SA) eps) (mx (post SB) eps))) :=
+  cosine_core add mul div mx pre post eps x y r axis n hx hy hr hv hn
+
+/-- non-vacuity: `(2,3)` with `(3)` (broadcast), axis −1: result shape `(2)`, the line of `[1]` is `[1,0], [1,1], [1,2]` -/
+example : Pos [2, 3] ∧ Pos [3] ∧ broadcastShape2 [2, 3] [3] = some [2, 3] ∧ Reduce.ValidAxis 2 (-1) ∧
+    [2, 3][Reduce.normAxis 2 (-1)]? = some 3 ∧ Reduce.specShape [2, 3] [Reduce.normAxis 2 (-1)] false = [2] ∧
+    (List.range 3).map (insAt [1] (Reduce.normAxis 2 (-1)) ·) = [[1, 0], [1, 1], [1, 2]] := by decide
+
+/-- … and axis 0 of a `(2,3)` pair: the line of `[2]` is `[0,2], [1,2]` -/
+example : Reduce.specShape [2, 3] [Reduce.normAxis 2 0] false = [3] ∧
+    (List.range 2).map (insAt [2] (Reduce.normAxis 2 0) ·) = [[0, 2], [1, 2]] := by decide
+
+example :
+    let a : Arr Int := ⟨[2, 2], fun d => match d with | [r, c] => (2 * r + c + 1 : Nat) | _ => 0⟩
+    (cosineSimilarity (· + ·) (· * ·) (· / ·) Reduce.maximum (fun t => t * t) id 1 a a 1).map
+        (fun v => (v.shape, (allIdx v.shape).map v.get))
+      = some ([2], [some (1 * 1 / (5 * 5) + 2 * 2 / (5 * 5)), some (3 * 3 / (25 * 25) + 4 * 4 / (25 * 25))]) := by decide
+
+open NmVerif.Reduce in
+/-- for element operations with `a/c + b/c = (a+b)/c` (real arithmetic) this is PyTorch's
+    `(Σ_L a·b) / (max(‖a‖, eps) · max(‖b‖, eps))` -/
+theorem cosine_similarity_eq_textbook {α : Type} (add mul div mx : α → α → α) (pre post : α → α) (eps : α) (x y : Arr α)
+    (r : Shape) (axis : Int) (n : Nat) (hx : Pos x.shape) (hy : Pos y.shape)
+    (hr : broadcastShape2 x.shape y.shape = some r) (hv : ValidAxis r.length axis)
+    (hn : r[normAxis r.length axis]? = some n)
+    (hadd : ∀ a b c, add (div a c) (div b c) = div (add a b) c) :
+    ∃ v, cosineSimilarity add mul div mx pre post eps x y axis = some v ∧
+      ∀ j, InShape j (specShape r [normAxis r.length axis] false) →
+        v.get j =
+          (foldFirst add none (((List.range n).map (insAt j (normAxis r.length axis) ·)).map fun i =>
+              pre (x.get (specBroadcastIdx x.shape i)))).bind fun SA =>
+          (foldFirst add none (((List.range n).map (insAt j (normAxis r.length axis) ·)).map fun i =>
+              pre (y.get (specBroadcastIdx y.shape i)))).bind fun SB =>
+          (foldFirst add none (((List.range n).map (insAt j (normAxis r.length axis) ·)).map fun i =>
+            mul (x.get (specBroadcastIdx x.shape i)) (y.get (specBroadcastIdx y.shape i)))).map
+              (div · (mul (mx (post SA) eps) (mx (post SB) eps))) := by
+  obtain ⟨v, h1, _, h3⟩ := cosine_core add mul div mx pre post eps x y r axis n hx hy hr hv hn
+  refine ⟨v, h1, fun j hj => ?_⟩
+  rw [h3 j hj]
+  congr 1; funext SA; congr 1; funext SB
+  rw [← foldFirst_div_distrib add div _ (fun a b => hadd a b _)]
+  simp only [List.map_map]
+  rfl
 
 /-! ## convolution -/
 
